@@ -78,10 +78,10 @@ func (s c11Spec) ops(w *model.World) (out []opx) {
 	full := []model.Write{{Col: "v", V: model.Val{N: 7}}, {Col: "s", V: model.Val{S: "a"}}}
 	merged := []model.Write{{Col: "v", V: model.Val{N: 5}, Merge: true}, {Col: "s", V: model.Val{S: "x"}, Merge: true}}
 	out = append(out,
-		txnOp(w, []model.Act{{Op: "insert", W: full}}, false),
-		txnOp(w, []model.Act{{Op: "insert"}}, false),
-		txnOp(w, []model.Act{{Op: "insert", W: merged}}, false),
-		txnOp(w, []model.Act{{Op: "insert", W: full}, {Op: "insert", W: merged}}, false),
+		txnOp(w, []model.Act{{Op: "insert", Probe: true, W: full}}, false),
+		txnOp(w, []model.Act{{Op: "insert", Probe: true}}, false),
+		txnOp(w, []model.Act{{Op: "insert", Probe: true, W: merged}}, false),
+		txnOp(w, []model.Act{{Op: "insert", Probe: true, W: full}, {Op: "insert", Probe: true, W: merged}}, false),
 	)
 	offs := w.M.Offsets()
 	// deletes: first, second and last live row (bulk filler included: holes matter here)
@@ -94,7 +94,7 @@ func (s c11Spec) ops(w *model.World) (out []opx) {
 	}
 	// delete then insert in one transaction
 	if len(offs) > 0 {
-		out = append(out, txnOp(w, []model.Act{{Op: "del", Off: offs[0]}, {Op: "insert", W: merged}}, false))
+		out = append(out, txnOp(w, []model.Act{{Op: "del", Off: offs[0]}, {Op: "insert", Probe: true, W: merged}}, false))
 	}
 	out = append(out, txnOp(w, []model.Act{{Op: "bulk", N: 64, W: full}}, false))
 	if len(offs) >= 2 {
